@@ -245,3 +245,95 @@ def run(res, facts, tier):
     r2_guard(res, facts)
     r3_params(res, facts)
     r4_ownership(res, facts)
+
+
+# ----------------------------------------------------------------------------------------------- R5: the last-error buffer
+def r5_last_error(res, facts):
+    """getLastError() returns &m_errorMessage[0].  A fresh transformer holds {NUL}; every public operation that can set the message must start
+    by putting it back to exactly that, whatever the buffer held."""
+    from ..mast import walk, calls, pp, strip_casts
+    r = res.rule('C06-R5', 'XalanTransformer::m_errorMessage (what getLastError() returns): every operation that resets it leaves exactly one NUL whatever it held before — '
+                 'clear() followed by push_back(0); resize(1, 0) alone keeps the first character of a longer message', floor=3)
+    n = 0
+    for k in facts.astidx:
+        f = facts.F.get(k)
+        if not f or f.get('cls') != 'xalanc_1_12::XalanTransformer':
+            continue
+        a = facts.ast(k)
+        if a is None:
+            continue
+        fn = short(facts.name[k])
+        ops = []
+        for c in calls(a['body']):
+            if c.get('k') == 'MCall' and pp(strip_casts(c.get('obj'))) == 'm_errorMessage' and c.get('n') in ('clear', 'push_back', 'resize', 'assign', 'erase', 'swap'):
+                ops.append(c)
+        if not ops:
+            continue
+        # reset idioms: look at the first operation(s)
+        first = ops[0]
+        site = '%s: reset of m_errorMessage' % fn
+        if first['n'] == 'clear':
+            nxt = ops[1] if len(ops) > 1 else None
+            if nxt is not None and nxt['n'] == 'push_back' and strip_casts(nxt['args'][0]).get('cv') == 0:
+                n += 1
+                r.ok(site, 'clear(); push_back(0)')
+            elif nxt is not None and nxt['n'] == 'resize' and strip_casts(nxt['args'][0]).get('cv') == 1:
+                n += 1
+                r.ok(site, 'clear(); resize(1, 0)')
+            else:
+                n += 1
+                r.violation(site, 'the buffer is cleared but no terminator is stored: getLastError() reads an empty vector', common.file_line(a, first))
+        elif first['n'] == 'resize':
+            n += 1
+            r.violation(site, 'reset with %s: on a buffer that holds a longer message this keeps its first character and no terminator, so getLastError() after a successful call still '
+                        'shows the message of an earlier failure' % pp(first)[:50], common.file_line(a, first))
+    if n < 3:
+        raise AnalysisBroken('only %d reset sites of XalanTransformer::m_errorMessage found (parseSource, compileStylesheet, doTransform expected)' % n)
+    return r
+
+
+_run_c06_prev = run
+
+
+def run(res, facts, tier):
+    _run_c06_prev(res, facts, tier)
+    r5_last_error(res, facts)
+
+
+# ----------------------------------------------------------------------------------------------- R6: re-configuration replaces
+def r6_replace(res, facts):
+    """A transformer that has been configured before must end up configured like a fresh one given the last settings: stores into the keyed
+    settings of XalanTransformer (external functions, stylesheet params) replace an existing entry."""
+    from .c19_own import collect_stores, is_map_member, field_of
+    r = res.rule('C06-R6', 'keyed settings of XalanTransformer (m_functions, m_params): a setter replaces what is stored under the key — operator[] / slot assignment; XalanMap::insert, which '
+                 'keeps the old entry, only where the key is known absent', floor=1)
+    n = 0
+    for k in facts.astidx:
+        f = facts.F.get(k)
+        if not f or f.get('cls') != 'xalanc_1_12::XalanTransformer':
+            continue
+        a = facts.ast(k)
+        if a is None:
+            continue
+        fn = short(facts.name[k])
+        stores, slots = collect_stores(a)
+        for fld, kind, ktxt, vtxt, node in stores:
+            n += 1
+            site = '%s: %s %s' % (fn, fld.split('::')[-1], {'insert': 'insert(key, value)', 'assign': '[key] = value', 'slot': 'slot reference assigned'}[kind])
+            if kind == 'insert':
+                r.violation(site, 'XalanMap::insert keeps an existing entry: setting the same key again leaves the previous value in force, so a transformer that was configured before '
+                            'does not behave like a fresh one configured with the last value', common.file_line(a, node))
+            else:
+                r.ok(site, 'replaces')
+        # vector-typed params: push_back after a search is fine; not decided here
+    if n == 0:
+        raise AnalysisBroken('no keyed store found in XalanTransformer (installExternalFunction expected)')
+    return r
+
+
+_run_c06_prev2 = run
+
+
+def run(res, facts, tier):
+    _run_c06_prev2(res, facts, tier)
+    r6_replace(res, facts)
